@@ -315,6 +315,16 @@ crate::harnesses! {
     #[cfg_attr(kani, kani::unwind(14))]
     fn wbin_f32_hex16_base2_e127() { wbin32e!(127, 16, 2, 10, mixed_format(16, 2), 0) }
 
+    /// hex float (radix 16, exponent base 2), every subnormal f32 and both zeros (mantissa with leading zero bits).
+    /// @prop C06 C09
+    /// @bound f32 values with exponent field 0 (subnormals and zeros)
+    /// @feat pow2 radix
+    /// @fn lexical-write-float::hex::write_float
+    /// @fn lexical-write-float::binary::truncate_and_round (significant bit count of a subnormal mantissa)
+    /// @timeout 1200
+    #[cfg_attr(kani, kani::unwind(14))]
+    fn wbin_f32_hex16_base2_e0() { wbin32e!(0, 16, 2, 10, mixed_format(16, 2), 0) }
+
     /// radix 16 (same exponent base), every f32 in [1, 2) and (-2, -1] (every finite f32: wbin_f32_radix16, thorough).
     /// @prop C06 C09
     /// @bound f32 values with exponent field 127
